@@ -299,7 +299,9 @@ def samdec_packet(rng, frames, hdr10=None):
 def foreign_packet(rng, L):
     """a packet the decommutator must ignore; it may well contain sync words and frame-like data"""
     body = clean(rng, 10) + b"".join(frame(rng, L) for _ in range(rng.randrange(1, 3)))
-    c = rng.randrange(0, 7)
+    c = rng.randrange(0, 8)
+    if c == 7:                                          # exactly 0x46 bytes: a complete, empty iNET-X packet on the stream
+        return l234(rng) + inetx_bytes(rng, b"")
     if c == 0:                                          # not UDP (TCP, ICMP, …)
         h = l234(rng, proto=rng.choice([6, 1, 2, 16, 18, 0, 255]))
         return h + inetx_bytes(rng, body)
